@@ -7,7 +7,7 @@ mod scn_time;
 mod scn_inbound;
 
 fn all_scenarios() -> Vec<&'static dyn Scenario> {
-    vec![&scenarios::Basic, &scenarios::Close, &scenarios::Death, &scn_rpc::Rpc, &scn_rpc::ChClose, &scn_rpc::Wire, &scn_batch::Batch, &scn_hs::Hs, &scn_time::Hb, &scn_time::Throttle, &scn_inbound::Inbound, &scn_inbound::ConsumerLife, &scn_inbound::Listeners, &scn_inbound::Violations]
+    vec![&scenarios::Basic, &scenarios::Close, &scenarios::Death, &scn_rpc::Rpc, &scn_rpc::ChClose, &scn_rpc::Wire, &scn_batch::Batch, &scn_hs::Hs, &scn_time::Hb, &scn_time::Throttle, &scn_time::Tuned, &scn_inbound::Inbound, &scn_inbound::ConsumerLife, &scn_inbound::Listeners, &scn_inbound::Violations]
 }
 
 use serde_json::{json, Value};
@@ -78,6 +78,7 @@ fn worker(argv: &[String]) {
         "violations_total": st.violations_total,
         "machinery": st.machinery,
         "capped": st.capped,
+        "stopped_on_violations": st.stopped_on_violations,
         "by_cost": st.by_cost.iter().map(|(k, v)| (k.to_string(), *v)).collect::<BTreeMap<String, u64>>(),
         "samples": st.samples,
         "bound": bound,
@@ -164,6 +165,9 @@ fn supervisor(argv: &[String]) {
         bounds.insert(v["bound"].as_u64().unwrap_or(0));
         for m in v["machinery"].as_array().unwrap() {
             machinery.push(format!("variant {}: {}", vi, m.as_str().unwrap_or("")));
+        }
+        if v["stopped_on_violations"].as_bool() == Some(true) {
+            part.exhaustive = false;
         }
         if v["capped"].as_bool() == Some(true) {
             part.exhaustive = false;
